@@ -151,6 +151,14 @@ def build_harness(bins=None):
     return out
 
 
+def build_harness_serde():
+    """The `fmt` binary built a second time with foyer-common's `serde` feature (the bincode blanket impl of Code)."""
+    rc, out = sh("cargo build --offline --bin fmt --features serde-path --target-dir target-serde 2>&1", cwd=HARNESS, timeout=3000)
+    if rc != 0:
+        raise Broken("harness (serde variant) does not build against the current tree", out)
+    return os.path.join(HARNESS, "target-serde", "debug", "fmt")
+
+
 def pmap(fn, items, workers=NPROC):
     with ThreadPoolExecutor(max_workers=workers) as ex:
         return list(ex.map(fn, items))
